@@ -24,6 +24,7 @@ CHECKS = {
 }
 ALL = ["C%02d" % i for i in range(1, 21)]
 CHECKS["C20"] = ("Real bidib_send_sys_reset step order (RESET first, features before SYS_ENABLE, then GO, occupancy query, initial values last); real bidib_state_set_board_features against a simulated bus: exactly the configured feature settings to each connected board, none elsewhere; real bidib_state_set_initial_values through the real high-level commands: one command per initial point / signal / peripheral and per train function per track output, encoded as the high-level command prescribes, nothing for disconnected boards.", "DESIGN 4/C20")
+CHECKS["C10"] = ("Lock-discipline obligations decided by the solver on every caller harness: (1) each of the 34 documented 'Shall only be called with X acquired' preconditions (parsed from the headers at run time) is asserted by a generated shim in front of the real accessor, for all commands, feedback handlers and getters; (2) every access to the node state table, the per-node queues and the uplink queues happens with the guarding mutex held (container tags in the glib model); (3) getters take each lock at most once (C17). Race freedom under real parallel execution is inferred from these by the lockset argument, not encoded.", "DESIGN 4/C10")
 NA = {}
 def main():
     for k in ALL:
